@@ -4,6 +4,7 @@
     through public iterators and a spying distance function. *)
 From Coq Require Import List NArith ZArith Bool Floats String.
 From LinfaVerif Require Export Common.Num Common.NdSum Common.Run C09.Model C20.Model gen.C20_seeds.
+From LinfaVerif Require Import Common.B32 C17.Model C20.VocabModel.
 Import ListNotations.
 
 Definition o64 := B64_ops.
@@ -23,12 +24,16 @@ Inductive case :=
 (* `labels()` of several calls on the same targets *)
 | CLabels (id : N) (targets : list N) (observed : list (list N))
 (* default parameter set behaves exactly like an explicit generator seeded with [seed] *)
-| CSeed (id : N) (file type : string) (seed : N) (agrees : bool).
+| CSeed (id : N) (file type : string) (seed : N) (agrees : bool)
+(* count vectoriser (lower-casing, default tokeniser, n-grams 1..nmax, max_features = cap) fitted several
+   times on [train]: per fit the order of `vocabulary()` and the dense rows of `transform(test)` *)
+| CVocab (id : N) (nmax : N) (cap : option N) (train test : list string)
+         (fits : list (list string * list (list N))).
 
 Definition case_id (c : case) : N :=
   match c with
   | CModal id _ _ | CArgmax id _ _ | CPar id _ _ _ _ _ _ _ _ _ _ _ _ _ _ _
-  | CHier id _ _ _ | CLabels id _ _ | CSeed id _ _ _ _ => id
+  | CHier id _ _ _ | CLabels id _ _ | CSeed id _ _ _ _ | CVocab id _ _ _ _ _ => id
   end.
 
 Definition opt_N_eqb (a : option N) (b : N) : bool := match a with Some x => N.eqb x b | None => false end.
@@ -58,6 +63,31 @@ Definition site_fixed_seed (file ty : string) : option N :=
   | Some s => match s_kind s with Fixed n => Some n | _ => None end
   | None => None
   end.
+
+(** vectoriser: settings, tokens, observed word -> column maps *)
+Definition vocab_settings (nmax : N) (cap : option N) : settings :=
+  mkSettings 1 (N.to_nat nmax) (b32_of_bits 0) (b32_of_bits 1065353216) None (option_map N.to_nat cap).
+Definition doc_tokens (d : string) : list string := tokenize (transform_string true d).
+
+Definition listnat_eqb := list_eqb Nat.eqb.
+Definition opt_col_eqb (a b : option (list nat)) : bool :=
+  match a, b with
+  | Some x, Some y => listnat_eqb x y
+  | None, None => true
+  | _, _ => false
+  end.
+Definition same_words (a b : list string) : bool :=
+  (forallb (fun w => mem w b) a && forallb (fun w => mem w a) b && Nat.eqb (List.length a) (List.length b))%bool.
+Fixpoint nodup_words (l : list string) : bool :=
+  match l with [] => true | a :: r => (negb (mem a r) && nodup_words r)%bool end.
+
+(* the observed matrix read as word -> column, exactly like [word_columns] reads the model's *)
+Definition observed_columns (fit : list string * list (list N)) : list (string * list nat) :=
+  let rows := map (map N.to_nat) (snd fit) in
+  map (fun jw => (snd jw, dense_column (fst jw) rows)) (combine (seq 0 (List.length (fst fit))) (fst fit)).
+
+Definition same_columns (words : list string) (c1 c2 : list (string * list nat)) : bool :=
+  (Nat.eqb (List.length c1) (List.length c2) && forallb (fun w => opt_col_eqb (col_of w c1) (col_of w c2)) words)%bool.
 
 Definition run_case (c : case) : verdict :=
   match c with
@@ -113,6 +143,27 @@ Definition run_case (c : case) : verdict :=
        ((flag (match site_fixed_seed file ty with Some s => N.eqb s seed | None => false end) 1
          + flag agrees 2)%N,
         0%N))
+  | CVocab id nmax cap train test fits =>
+      let s := vocab_settings nmax cap in
+      let tr := map doc_tokens train in
+      let te := map doc_tokens test in
+      (* the model run with the identity enumerations, and with each observed `vocabulary()` order replayed *)
+      let ref_fit := fit_ord id_orders s tr in
+      let words := snd ref_fit in
+      let ref_cols := word_columns 1 (N.to_nat nmax) ref_fit te in
+      let replay := fun vocab => fit_ord (observed_orders vocab) s tr in
+      (id,
+       ((flag (forallb (fun f => same_words words (fst f) && nodup_words (fst f)) fits) 1
+         + flag (forallb (fun f => list_eqb listnat_eqb
+                                     (dense_rows 1 (N.to_nat nmax) (fst (replay (fst f))) te)
+                                     (map (map N.to_nat) (snd f))
+                                   && list_eqb String.eqb (snd (replay (fst f))) (fst f)) fits) 2)%N,
+        (flag (match fits with
+               | [] => true
+               | f0 :: r => forallb (fun f => same_columns (fst f0) (observed_columns f0) (observed_columns f)) r
+               end) 1
+         + flag (forallb (fun o => same_columns words ref_cols (word_columns 1 (N.to_nat nmax) (fit_ord o s tr) te))
+                         (map rot_orders (seq 1 4) ++ map (fun f => observed_orders (fst f)) fits)) 4)%N))
   end.
 
 Definition run_cases (cs : list case) : list N := report (map run_case cs).
